@@ -100,6 +100,11 @@ func buildC02(tier string, seed int64) *Family {
 		"descendant::*[@a]/descendant-or-self::b", "descendant::a[. = '1']//*", "descendant::a[a]/descendant::a[@a]/descendant::*"} {
 		add(t)
 	}
+	// node values that look like numbers in other notations are not XPath numbers
+	lcfg := docCfg{N: 3, A: 1, Names: "a,b", Pool: "1e1,10,0x1,+1,.5, 1 "}
+	for _, t := range []string{"//*[. > 0]", "//*[@a = 10]", "//*[. != 10]", "//*[not(. > 0) and not(. <= 0)]", "//*[@a < 1]", "//*[. = 1]", "*[count(*[. >= 1]) = 1]"} {
+		insts = append(insts, nodesetInst(t, lcfg))
+	}
 	// elements with several attributes: wildcard attribute predicates leave a half-consumed
 	// attribute cursor behind for the next candidate
 	acfg := docCfg{N: 3, A: 2, Names: "a,b", Pool: cfg.Pool}
